@@ -70,3 +70,9 @@ func (db *DB) VerifTriggerGC() {
 	default:
 	}
 }
+
+// VerifTableSeq returns the sequence number of the table's sortable mutex
+// (what internal.VerifSetLockHook reports).
+func VerifTableSeq(table TableMeta) uint64 {
+	return table.sortableMutex().Seq()
+}
